@@ -644,6 +644,17 @@ package larking
 //@   ensures [one-snapshot C12] loads == 1
 //@   ensures [end-after-begin C18] begins == ends
 //@   assert at "herr := hd.handler(&m.opts, stream)" [websocket-stream-carries-the-receive-limit C08] stream.maxRecv == m.opts.maxReceiveMessageSize
+// (a close frame carries the code and at most 123 bytes of UTF-8 text; gobwas/ws crops a
+// longer reason at byte 123 wherever that falls, so larking must hand over a reason that
+// needs no cropping and ends between two characters of the message)
+//@   assert atcall `ws.NewCloseFrameBody(` [websocket-close-reason-fits-a-control-frame C05] len(arg1) <= 123
+//@   assert atcall `ws.NewCloseFrameBody(` [websocket-close-reason-is-the-message-as-far-as-it-fits C05] len(arg1) <= len(StatusMsgOf(s#2))
+//@        && (len(StatusMsgOf(s#2)) <= 123 ==> len(arg1) == len(StatusMsgOf(s#2))) && (forall k :: 0 <= k && k < len(arg1) ==> arg1[k] == StatusMsgOf(s#2)[k])
+//@   assert atcall `ws.NewCloseFrameBody(` [websocket-close-reason-ends-on-a-character-boundary C05] len(arg1) == len(StatusMsgOf(s#2))
+//@        || StatusMsgOf(s#2)[len(arg1)] < 128 || StatusMsgOf(s#2)[len(arg1)] >= 192
+//@   assert atcall `ws.NewCloseFrameBody(` [websocket-close-reason-is-cut-at-the-last-boundary C05] len(StatusMsgOf(s#2)) > 123 ==>
+//@        (forall k :: len(arg1) < k && k <= 123 ==> 128 <= StatusMsgOf(s#2)[k] && StatusMsgOf(s#2)[k] < 192)
+//@   witness verifWitnessWSCloseReason for websocket-close-reason-
 //@   assert atcall `ws.NewCloseFrameBody(` [websocket-close-code-is-the-mapped-code C05] (StatusCodeOf(s#2) <= 16 ==> arg0 == WSOf(StatusCodeOf(s#2))) && (StatusCodeOf(s#2) > 16 ==> arg0 == 1011)
 //@   count tags `sh.TagRPC(`
 //@   count inheaders `sh.HandleRPC(ctx, &stats.InHeader{`
@@ -815,6 +826,7 @@ package larking
 //@ func twirpCodeName serves C05 C09 pure
 //@   ensures [twirp-table C05] TwirpNameOK(c, result)
 //@ det StatusCodeOf "(*status.Status).Code" int
+//@ det StatusMsgOf "(*status.Status).Message" string
 //@ det FormatInt "strconv.FormatInt" string
 // (the HTTP status written for an error is the mapped status of its code, on both
 // the Twirp and the negotiated path)
